@@ -253,8 +253,9 @@ theorem SRel.equivU {cfg : Cfg} {seen : List Txid} {s : Store} {a : State} (h : 
   | false => rw [h.noAddr ha]
   | true =>
     obtain ⟨scr, op⟩ := x
-    rw [h.tinvC.rows ha scr op, h.tinvA.rows ha scr op]
-    show (∃ e, AL.get s.st.utxo op = some e ∧ e.script = scr) ↔ (∃ e, AL.get a.utxo op = some e ∧ e.script = scr)
-    rw [h.utxo_eq hc]
+    have h1 := h.tinvC.rows ha scr op
+    have h2 := h.tinvA.rows ha scr op
+    simp only [tri] at h1 h2
+    rw [h1, h2, h.utxo_eq hc]
 
 end Ord.Index.Sched
